@@ -30,7 +30,7 @@ ASSUMPTIONS = [
     'objects returned by accessors are not mutated by the harness',
 ]
 ANCHORS = ['Table.copy', 'Table.filter', 'Table.transform', 'Table.subsample', 'Table._get_sparse_data']
-REQUIRED = ['refused_inplace_twins_checked',
+REQUIRED = ['axes_with_partly_empty_metadata', 'refused_inplace_twins_checked',
             'update_ids_collision_requests', 'degenerate_argument_calls', 'noninplace_calls', 'inplace_equivalence_checked',
             'isolation_batteries', 'fault_injections', 'layout_csc_seen',
             'layout_unsorted_seen', 'args_tables_checked',
@@ -341,8 +341,14 @@ def run_case(ctx, index):
         vclasses = ['count']
     spec = gen.gen_spec(r, max_n=6, max_m=6, value_classes=vclasses,
                         allow_all_zero=op not in ('norm',))
-    if op == 'collapse' and (spec.obs_md is None or spec.samp_md is None):
-        pass
+    if r.random() < .2:
+        # metadata for some of the ids only (an empty entry for the others)
+        for md_ in (spec.obs_md, spec.samp_md):
+            if md_ and len(md_) > 1:
+                for q in r.sample(range(len(md_)), r.randint(1,
+                                                             len(md_) - 1)):
+                    md_[q] = {}
+                ctx.count('axes_with_partly_empty_metadata')
     recipe = r.choice(gen.LAYOUTS)
     axis = r.choice(['sample', 'observation'])
     t = gen.apply_layout(ctx.biom, spec, recipe, r)
